@@ -160,7 +160,7 @@ CANARIES = [
     ('innovation sign', ('KF', 'correct', 'e = z - H.dot(x)', 'e = H.dot(x) - z'), dict(n=2, m=1, what=('white',))),
     ('mean uses +H x', ('KF', 'correct', 'x + K @ (z - H @ x)', 'x + K @ (z + H @ x)'), dict(n=2, m=1, what=('post',))),
     ('S without R', ('KF', 'correct', 'S = HP @ H.T + R', 'S = HP @ H.T + 2 * R'), dict(n=2, m=1, what=('post', 'info'))),
-    ('input P modified in place', ('KF', 'correct', 'HP = H @ P', 'HP = H @ P; P[0, 0] = P[0, 0] * 1'), dict(n=2, m=1, what=('post',))),
+    ('input P modified in place', ('KF', 'correct', 'HP = H @ P', 'HP = H @ P; P[0, 0] = P[0, 0] * 2'), dict(n=2, m=1, what=('post',))),
 ]
 
 
@@ -300,7 +300,20 @@ def run(run):
     cfgs = [(1, 1), (2, 1), (3, 1), (2, 2)] if run.tier == 'quick' else [(1, 1), (2, 1), (3, 1), (4, 1), (5, 1), (2, 2), (3, 2)]
     timeout = 60 if run.tier == 'quick' else 300
     for n, m in cfgs:
-        obls = section(rep, n, m)
+        try:
+            obls = section(rep, n, m)
+        except ValueError as e:
+            if 'read-only' not in str(e):
+                raise
+            # the function writes into one of its (read-only) input arrays: confirm on the compiled code
+            spec = {'kind': 'numeric', 'check': 'post', 'point': {}, 'params': {'n': n, 'm': m}, 'obligation': 'inputs are not modified'}
+            res = common.run_replays([dict(spec, property=PROP)])[0]
+            if res.get('violated'):
+                run.violation('%dx%d: kalman.correct writes into an input array (%s); real code: %s' % (n, m, e, res.get('detail')), common.write_replay(PROP, spec), res.get('detail'))
+            else:
+                run.error('%dx%d: symbolic execution wrote into an input array (%s) but the compiled code leaves its inputs unchanged - inconclusive' % (n, m, e))
+            run.family('inputs unchanged', 1, 0, 0.0)
+            continue
         rep.finish(rep.batch(obls, timeout_s=timeout), PROP)
         s = z3.Solver()
         s.add(S.C.cons)
